@@ -39,7 +39,8 @@ static void add_raw(int section, const char *owner, int type, int class_, uint32
 	struct exp_rec *e = exp_new(section, owner, type, class_, ttl); if (!e) return;
 	if (g_pool_n + len > sizeof g_pool) return;
 	memcpy(g_pool + g_pool_n, data, len); e->rd_off = (uint32_t)g_pool_n; e->rd_len = (uint32_t)len;
-	int rc = evdns_server_request_add_reply(g_req, section, owner, type, class_, (int)ttl, (int)len, 0, (const char *)data);
+	/* event_mm_malloc_(0) is NULL by design: zero-length rdata is passed as (NULL, 0) */
+	int rc = evdns_server_request_add_reply(g_req, section, owner, type, class_, (int)ttl, (int)len, 0, len ? (const char *)data : NULL);
 	if (rc == 0) { g_pool_n += len; g_nexp++; } else g_api_fail++;
 }
 static void add_filler(int section, const char *owner, size_t len)
@@ -214,7 +215,7 @@ static void verify(const uint8_t *m, size_t len, const char *qname, int had_opt,
 				if (!dw_name_eq(&rr.owner, &want, 0)) { char t[320]; dw_name_text(&rr.owner, t, sizeof t); CFAIL("record-differs", "%s: record %d owner '%s', added '%s' (offset %zu)", g_ctx, i, t, e->owner, rr.start); }
 				if (rr.type != e->type || rr.class_ != e->class_ || rr.ttl != e->ttl) CFAIL("record-differs", "%s: record %d type/class/ttl %u/%u/%u, added %u/%u/%u", g_ctx, i, rr.type, rr.class_, rr.ttl, e->type, e->class_, e->ttl);
 				if (e->is_name) {
-					size_t ne; rc = dw_read_rdata_name(&rd, rr.rdata, &tn, &ne);
+					size_t ne = 0; rc = dw_read_rdata_name(&rd, rr.rdata, &tn, &ne);
 					if (rc || ne != rr.end) CFAIL("rdata-name-undecodable", "%s: record %d: %s, name ends at %zu, rdata at %zu", g_ctx, i, dw_strerror(rc), ne, rr.end);
 					name_check(&tn, "rdata name", i, &bad); if (bad) return;
 					dw_name_from_text(e->tname, strlen(e->tname), &want);
@@ -278,7 +279,8 @@ static void run_sweep(const struct item *it, int mode, unsigned opt_query, size_
 	/* the complete encoding with that filler (unlimited transport) */
 	if (mode != SM_TCP || target + (size_t)delta <= 65535) {
 		if (exchange(mode, QNAME_DEFAULT, probe_opt) || !g_r.have) { if (!mc_failed()) mc_fail("harness:probe", "%s: second probe gave no response", g_ctx); return; }
-		if (g_r.n != target + (size_t)delta && !(dw_get_u16(g_r.b + 2) & DW_F_TC)) { mc_fail("harness:sweep-not-linear", "%s: response %zu, wanted %zu", g_ctx, g_r.n, target + (size_t)delta); return; }
+		/* (the 16k family is not linear once names land beyond the 14-bit pointer range) */
+		if (it->fam != F_SWEEP16K && g_r.n != target + (size_t)delta && !(dw_get_u16(g_r.b + 2) & DW_F_TC)) { mc_fail("harness:sweep-not-linear", "%s: response %zu, wanted %zu", g_ctx, g_r.n, target + (size_t)delta); return; }
 		memcpy(full, g_r.b, g_r.n); full_n = g_r.n;
 	} else full_n = 0;
 	if (mode == SM_TCP) {
